@@ -245,3 +245,40 @@ def labels(ctx):
                 raw = any(r[0] == 'call' and r[1].is_(r'::encaps$') for r in roots)
                 ctx.check(not raw, g, 'returned secret is derived', 'generate returns the raw encapsulated seed (which also keys '
                           'the metadata) instead of a derived secret', 'kdf output', gb.where(st['ln']))
+
+
+SECRET_CTORS = {
+    'core::RightSecretKey::random': 'fresh scalar and fresh ML-KEM key pair',
+    'core::RightSecretKey::drop_hybridization': 'downgrade of an existing secret (same scalar, by design)',
+    'core::serialization::<impl cosmian_crypto_core::bytes_ser_de::Serializable for core::RightSecretKey>::read': 'deserialisation',
+    '<core::RightSecretKey as std::clone::Clone>::clone': 'derive(Clone)',
+}
+
+
+@rule('C16', 'secret-constructors', configs=('default', 'p256'))
+def secret_constructors(ctx):
+    """Every rekey publishes values never published before: a right secret is only ever assembled by
+    RightSecretKey::random (all components fresh), by the downgrade of an existing secret, by read or by Clone —
+    nowhere else can fresh and recycled key material be mixed."""
+    F = ctx.F
+    n = 0
+    for body in F.fns():
+        for b in sorted(body.live_blocks()):
+            for st in body.stmts(b):
+                rv = st['rv']
+                if rv['k'] == 'agg' and rv.get('adt') == 'core::RightSecretKey':
+                    n += 1
+                    root = body.root or body.key
+                    ctx.check(root in SECRET_CTORS, root, 'constructs RightSecretKey::%s' % rv['variant'],
+                              '%s assembles a RightSecretKey::%s itself (line %d): outside RightSecretKey::random nothing guarantees that '
+                              'every component (DH scalar, ML-KEM key pair) is freshly drawn — a rekey could republish old key material'
+                              % (body.key, rv['variant'], st['ln']), SECRET_CTORS.get(root, ''), body.where(st['ln']))
+    ctx.floor(n, 4, 'constructions of RightSecretKey')
+    rb = F.fn('core::RightSecretKey::random')
+    kg = rb.calls(r'traits::Kem::keygen$')
+    for st in [s for b in sorted(rb.live_blocks()) for s in rb.stmts(b)
+               if s['rv']['k'] == 'agg' and s['rv'].get('adt') == 'core::RightSecretKey' and s['rv']['variant'] == 'Hybridized']:
+        dk = st['rv']['ops'][st['rv']['fields'].index('dk')]
+        sl = backward_slice(rb, [dk], follow_mutarg=False)
+        ctx.check(any(c in sl.calls for c in kg), rb.key, 'dk <- fresh keygen', 'the ML-KEM decapsulation key of a new hybridized secret is not '
+                  'the one freshly generated by MlKem::keygen', 'dk from keygen(rng)', rb.where(st['ln']))
